@@ -168,6 +168,38 @@ namespace cs
                 }
             }
         }
+        else if (profile == "C09D")
+        {
+            p.set("mode", "deep");
+            p.set("variant", (long long)r.below(2));
+            p.set("node_size", (long long)r.pick<long long>({8, 16, 32, 48, 100}));
+            p.set("block_size", (long long)r.pick<long long>({256, 512, 1024, 2000}));
+            for (std::size_t i = 0; i < len; ++i)
+            {
+                switch (r.below(12))
+                {
+                case 0:
+                    p.add("mk", {(long long)r.below(2)});
+                    break;
+                case 1:
+                    p.add("mv", {(long long)r.below(2), (long long)r.below(2)});
+                    break;
+                case 2:
+                    p.add("mva", {(long long)r.below(2), (long long)r.below(2)});
+                    break;
+                case 3:
+                    p.add(r.chance(1, 3) ? "ds" : "shrink", {(long long)r.below(2)});
+                    break;
+                case 4:
+                case 5:
+                case 6:
+                    p.add("fr", {0, (long long)r.below(1000)});
+                    break;
+                default:
+                    p.add("al", {(long long)r.below(2), (long long)r.below(4000)});
+                }
+            }
+        }
         else if (profile == "C10")
         {
             p.set("mode", "cont");
